@@ -46,10 +46,20 @@ impl SnapshotAction {
     results: &[CaseResult],
   ) -> Option<SnapshotCollection> {
     let accepted = match self {
-      Self::NeedUpdate => results
-        .iter()
-        .map(|result| (result.id.to_string(), result.changed_snapshots()))
-        .collect(),
+      Self::NeedUpdate => {
+        // several test files can carry cases for the same rule id: their snapshots go to one file
+        let mut accepted = SnapshotCollection::new();
+        for result in results {
+          let changed = result.changed_snapshots();
+          match accepted.get_mut(result.id) {
+            Some(tests) => tests.snapshots.extend(changed.snapshots),
+            None => {
+              accepted.insert(result.id.to_string(), changed);
+            }
+          }
+        }
+        accepted
+      }
       Self::AcceptNone => return None,
     };
     Some(merge_snapshots(accepted, existing))
